@@ -85,17 +85,34 @@ func execCodec(op string, a []sx) sx {
 		return T("builderr")
 	}
 	switch op {
-	case "cread":
+	case "cread", "cread-recycled":
 		creadCount++
-		if creadCount%3 == 0 {
-			// what an application does with a decoded record is its own business: an earlier decode of the same bytes whose
-			// empty maps and slices were then written to by the caller must not show in a later decode by the same codec
-			pre := newCell(b.typ)
-			pr := avro.NewReadBuf(a[2].bytes())
-			if err := b.codec.Read(pr, pre.ptr()); err == nil {
-				scribbleEmpties(pre.v, 0)
+		if op == "cread-recycled" {
+			// the judged decode takes a bank that an earlier record filled with pointer-sized values and closed (done here, in
+			// the same step, so that it does not depend on what the cases in between left in the pool)
+			type filler struct {
+				Ps []**int64 `json:"ps"`
 			}
-			// its bank is deliberately not returned to the pool: the scribbled record stays the caller's
+			fs, err := avro.SchemaFromString(`{"type":"record","name":"Pp","fields":[{"name":"ps","type":{"type":"array","items":"long"}}]}`)
+			if err != nil {
+				panic("harness: filler schema: " + err.Error())
+			}
+			fc, err := fs.Codec(filler{})
+			if err != nil {
+				panic("harness: filler codec: " + err.Error())
+			}
+			w := avro.NewWriteBuf(nil)
+			w.Varint(40)
+			for i := 0; i < 40; i++ {
+				w.Varint(int64(0x0101010101010101 * (i + 1)))
+			}
+			w.Varint(0)
+			var f filler
+			fr := avro.NewReadBuf(w.Bytes())
+			if err := fc.Read(fr, unsafe.Pointer(&f)); err != nil {
+				panic("harness: filler decode: " + err.Error())
+			}
+			fr.ExtractResourceBank().Close()
 		}
 		dst := newCell(b.typ)
 		r := avro.NewReadBuf(a[2].bytes())
@@ -111,6 +128,26 @@ func execCodec(op string, a []sx) sx {
 		// recycled banks (big / small / big allocation histories arise from the case mix)
 		out := T("ok", dumpVal(dst.v), I(int64(r.Len())))
 		r.ExtractResourceBank().Close()
+		if creadCount%3 == 0 {
+			// What an application does with a decoded record is its own business: after the judged decode (whose bank went
+			// back to the pool as always) the same bytes are decoded again, the caller writes into the empty maps, empty slices
+			// and byte strings of that record - it keeps it, its bank is not returned -, and a further decode by the same codec
+			// must still give the value the first one gave.
+			owned := newCell(b.typ)
+			if err := b.codec.Read(avro.NewReadBuf(a[2].bytes()), owned.ptr()); err == nil {
+				scribbleEmpties(owned.v, 0)
+			}
+			again := newCell(b.typ)
+			ar := avro.NewReadBuf(a[2].bytes())
+			if err := b.codec.Read(ar, again.ptr()); err != nil {
+				return T("caller-writes-leak", A("the-same-bytes-no-longer-decode"))
+			}
+			d2 := dumpVal(again.v)
+			ar.ExtractResourceBank().Close()
+			if d2.String() != out.args()[0].String() {
+				return T("caller-writes-leak", d2)
+			}
+		}
 		return out
 	case "cskip":
 		r := avro.NewReadBuf(a[2].bytes())
